@@ -27,7 +27,8 @@ fn row(op: &str, b: i16) -> Value {
         let r = guarded(|| match op {
             "add" => verif::felt_add(a, b),
             "sub" => verif::felt_sub(a, b),
-            _ => verif::felt_mul(a, b),
+            "mul" => verif::felt_mul(a, b),
+            _ => verif::felt_op2(op, a, b),
         });
         match r {
             Outcome::Ret(r) => {
@@ -78,6 +79,50 @@ pub fn c12(args: &Args) {
             out.emit(row(op, b));
         }
     }
+    // the other operator impls: compound assignment (what Polynomial's own arithmetic uses), division, `multiply`
+    {
+        let mut fixed: Vec<i16> = vec![0, 1, 2, 6144, 6145, 12287, 12288, 12277, 8192];
+        while fixed.len() < (if thorough { 400 } else { 24 }) {
+            fixed.push(rng.gen_range(0..Q as i16));
+        }
+        for op in ["add_assign", "sub_assign", "mul_assign", "multiply", "div"] {
+            for &b in &fixed {
+                if op == "div" && b == 0 {
+                    continue; // division by zero panics by design
+                }
+                out.emit(row(op, b));
+            }
+        }
+    }
+    // chains that never leave the field type: t = (a + b) * c - d, 1/t, is_zero, == (an internal representative that is not
+    // canonical is invisible through value() of a fresh result but not through is_zero / == / a following operation)
+    {
+        let pick = |rng: &mut rand_chacha::ChaCha20Rng| -> i16 {
+            match rng.gen_range(0..4) {
+                0 => [0i16, 1, 12288, 6144, 6145][rng.gen_range(0..5)],
+                _ => rng.gen_range(0..Q as i16),
+            }
+        };
+        let mut rows = vec![];
+        for i in 0..(if thorough { 60000 } else { 6000 }) {
+            let (a, b, c) = (pick(&mut rng), pick(&mut rng), pick(&mut rng));
+            // every third chain ends in t = 0, every fifth has a + b = q
+            let b = if i % 5 == 0 { ((Q - a as i32) % Q) as i16 } else { b };
+            let d = if i % 3 == 0 { (((a as i64 + b as i64) * c as i64).rem_euclid(Q as i64)) as i16 } else { pick(&mut rng) };
+            let r = match guarded(|| verif::felt_chain(a, b, c, d)) {
+                Outcome::Ret((v, inv, z, e1, e2)) => json!([a, b, c, d, v, inv, z as i32, e1 as i32, e2 as i32]),
+                Outcome::Panic(_) => json!([a, b, c, d, -99999, 0, 0, 0, 0]),
+            };
+            rows.push(r);
+            if rows.len() == 1000 {
+                out.emit(json!({"ev":"chain","rows":rows,"tag":"chain"}));
+                rows = vec![];
+            }
+        }
+        if !rows.is_empty() {
+            out.emit(json!({"ev":"chain","rows":rows,"tag":"chain"}));
+        }
+    }
     // call SEQUENCES with many repeats over a small value set (state kept between calls: a one-entry memo, a "nothing to do"
     // shortcut): inputs and outputs recorded in call order
     {
@@ -112,6 +157,33 @@ pub fn c12(args: &Args) {
                 Outcome::Panic(_) => json!([-99999]),
             };
             out.emit(json!({"ev":"batchinv","v":i16s_json(&v),"res":r,"tag":"batchinv"}));
+        }
+    }
+    // batch inversion shapes: empty, all zero, block-sized lengths with zeros around multiples of 64 (a chunked implementation)
+    {
+        let mut shapes: Vec<Vec<i16>> = vec![vec![], vec![0], vec![0, 0], vec![0; 64], vec![0; 65]];
+        for &len in &[63usize, 64, 65, 128, 512, 1024] {
+            let mut v: Vec<i16> = (0..len).map(|_| rng.gen_range(1..Q as i16)).collect();
+            shapes.push(v.clone());
+            for k in (0..len).step_by(64) {
+                if k > 0 {
+                    v[k - 1] = 0;
+                }
+                if k + 1 < len && (k / 64) % 2 == 0 {
+                    v[k + 1] = 0;
+                }
+            }
+            shapes.push(v.clone());
+            v[0] = 0;
+            v[len - 1] = 0;
+            shapes.push(v);
+        }
+        for v in shapes {
+            let r = match guarded(|| verif::felt_batch_inverse_or_zero(&v)) {
+                Outcome::Ret(r) => i16s_json(&r),
+                Outcome::Panic(_) => json!([-99999]),
+            };
+            out.emit(json!({"ev":"batchinv","v":i16s_json(&v),"res":r,"tag":"batchinv-shape"}));
         }
     }
     println!("events {}", out.finish());
@@ -263,14 +335,37 @@ pub fn u32field(args: &Args) {
                 u32_or_panic(|| verif::u32f_sub(a, b)),
                 u32_or_panic(|| verif::u32f_mul(a, b)),
             ];
-            out.emit(json!({"ev":"u32bin","a":a,"b":b,"add":r[0],"sub":r[1],"mul":r[2],"tag":"bin"}));
+            // the compound-assignment impls, `multiply` and division (b != 0) must agree with the by-value operators' specification
+            let r2 = [
+                u32_or_panic(|| verif::u32f_op2("add_assign", a, b)),
+                u32_or_panic(|| verif::u32f_op2("sub_assign", a, b)),
+                u32_or_panic(|| verif::u32f_op2("mul_assign", a, b)),
+                u32_or_panic(|| verif::u32f_op2("multiply", a, b)),
+                if b == 0 { -1 } else { u32_or_panic(|| verif::u32f_op2("div", a, b)) },
+            ];
+            out.emit(json!({"ev":"u32bin","a":a,"b":b,"add":r[0],"sub":r[1],"mul":r[2],"add_assign":r2[0],"sub_assign":r2[1],"mul_assign":r2[2],
+                            "multiply":r2[3],"div":r2[4],"tag":"bin"}));
         }
         out.emit(json!({"ev":"u32un","a":a,"neg":u32_or_panic(|| verif::u32f_neg(a)),"inv":u32_or_panic(|| verif::u32f_inverse_or_zero(a)),
                         "bal":match guarded(|| verif::u32f_balanced(a)) { Outcome::Ret(v) => v as i64, _ => -99999 },"tag":"un"}));
     }
     // conversions inside the reach of C17 (|v| < p; coefficients and quotients are far below); U32Field::new(-p) returns p
     // (non-canonical, like the repaired Felt::new did) but no listed property quantifies over such inputs
-    for &v in &[0i32, 1, -1, 1073754112, -1073754112, 536870912, -536870912, 16777216, -16777216, 16777215, -16777215, 65536, -65536] {
+    let mut news: Vec<i32> = vec![0, 1, -1, 1073754112, -1073754112, 536870912, -536870912, 16777216, -16777216, 16777215, -16777215, 65536, -65536];
+    for j in 1..=30u32 {
+        for d in [-1i64, 0, 1] {
+            let v = (1i64 << j) + d;
+            if v.abs() < UQ as i64 {
+                news.push(v as i32);
+                news.push(-(v as i32));
+            }
+        }
+    }
+    for _ in 0..(if thorough { 4000 } else { 300 }) {
+        news.push(rng.gen_range(-(1i32 << 25)..(1 << 25)));
+        news.push(rng.gen_range(-(UQ as i32 - 1)..(UQ as i32)));
+    }
+    for &v in &news {
         out.emit(json!({"ev":"u32new","v":v,"res":u32_or_panic(|| verif::u32f_new(v)),"tag":"new"}));
     }
     // tables
